@@ -1,107 +1,34 @@
 /-
   Helper lemmas for C11.  The primed statements are re-exported by OrbProofs/C11.lean.
 -/
-import Orb.Quadtree
-import Mathlib.Algebra.Order.Field.Basic
-import Mathlib.Data.List.Perm.Basic
-import Mathlib.Data.List.Sort
+import OrbProofs.C11Tree
 
 namespace Orb.Quadtree
 open Orb Orb.Core
 
-/-! ### spec-side vocabulary -/
-
-section vocab
-variable {α : Type} [Field α] [LinearOrder α] [IsStrictOrderedRing α]
-
-/-- `p` lies in the closed cell `c` -/
-def inCell (c : Cell α) (p : Pt α) : Prop := c.l ≤ p.x ∧ p.x ≤ c.r ∧ c.b ≤ p.y ∧ p.y ≤ c.t
-
-/-- structural invariant: every stored value lies in the cell of its node (cells are derived
-    from the tree bound by the same midpoint arithmetic the code uses) -/
-def Inv : Tree α → Cell α → Prop
-  | .nil, _ => True
-  | .node v c0 c1 c2 c3, c =>
-    (∀ p, v = some p → inCell c p.p) ∧ Inv c0 (c.sub 0) ∧ Inv c1 (c.sub 1) ∧ Inv c2 (c.sub 2) ∧ Inv c3 (c.sub 3)
-
-def QInv (q : QT α) : Prop := Inv q.root (rootCell q.bound)
-
-/-- the only assumption on the square root used to size the pruning box: an upper bound -/
-def SqrtUp (sqrt : α → α) : Prop := ∀ x, 0 ≤ x → 0 ≤ sqrt x ∧ x ≤ sqrt x * sqrt x
-
-/-- closed-box membership used by the in-bound query -/
-def inBox (b : Bound α) (p : Pt α) : Bool :=
-  decide (b.lo.x ≤ p.x ∧ p.x ≤ b.hi.x ∧ b.lo.y ≤ p.y ∧ p.y ≤ b.hi.y)
-
-/-- "strictly within the optional distance limit" -/
-def within (pt : Pt α) (maxDist : Option α) (x : Ptr α) : Bool :=
-  match maxDist with
-  | none => true
-  | some m => decide (distSq x.p pt < m * m)
-
-/-- operations of a history -/
-inductive Op (α : Type) where
-  | add (p : Ptr α)
-  | remove (pt : Pt α) (eq : Ptr α → Bool)
-  | matching (pt : Pt α) (f : Ptr α → Bool)
-  | kNearest (pt : Pt α) (k : Nat) (f : Ptr α → Bool) (maxDist : Option α)
-  | inBound (b : Bound α) (f : Ptr α → Bool)
-
-/-- observable results -/
-inductive Out (α : Type) where
-  | flag (b : Bool)
-  | ptr (p : Option (Ptr α))
-  | ptrs (l : List (Ptr α))
-
-/-- one step of the implementation model -/
-def step (sqrt : α → α) (q : QT α) : Op α → QT α × Out α
-  | .add p => let (q', ok) := add q p; (q', .flag ok)
-  | .remove pt eq => let (q', ok) := remove sqrt q pt eq; (q', .flag ok)
-  | .matching pt f => (q, .ptr (matching sqrt q pt f))
-  | .kNearest pt k f md => (q, .ptrs (kNearest sqrt q pt k f md))
-  | .inBound b f => (q, .ptrs (inBound q b f))
-
-/-- THE SPECIFICATION: what a plain list `cs` of the stored pointers allows as the answer `out`
-    and as the new contents `cs'` (a multiset: everything is up to permutation). -/
-def Spec (qb : Bound α) (cs : List (Ptr α)) : Op α → Out α → List (Ptr α) → Prop
-  | .add p, .flag ok, cs' =>
-    (ok = qb.contains p.p) ∧ (if ok then cs'.Perm (p :: cs) else cs'.Perm cs)
-  | .remove pt eq, .flag ok, cs' =>
-    if ok then ∃ x, x ∈ cs ∧ eq x = true ∧ (∀ y ∈ cs, eq y = true → distSq x.p pt ≤ distSq y.p pt) ∧ cs.Perm (x :: cs')
-    else (∀ y ∈ cs, eq y = false) ∧ cs'.Perm cs
-  | .matching pt f, .ptr r, cs' =>
-    cs'.Perm cs ∧
-    (match r with
-     | none => ∀ y ∈ cs, f y = false
-     | some x => x ∈ cs ∧ f x = true ∧ ∀ y ∈ cs, f y = true → distSq x.p pt ≤ distSq y.p pt)
-  | .kNearest pt k f md, .ptrs r, cs' =>
-    cs'.Perm cs ∧
-    ∃ rest, (r ++ rest).Perm (cs.filter fun x => f x && within pt md x) ∧
-      r.length = min k (cs.filter fun x => f x && within pt md x).length ∧
-      r.Pairwise (fun a b => distSq a.p pt ≤ distSq b.p pt) ∧
-      ∀ x ∈ r, ∀ y ∈ rest, distSq x.p pt ≤ distSq y.p pt
-  | .inBound b f, .ptrs r, cs' =>
-    cs'.Perm cs ∧ r.Perm (cs.filter fun x => f x && inBox b x.p)
-  | _, _, _ => False
-
-/-- every step of a history meets the specification w.r.t. the tree's own contents -/
-def Trace (sqrt : α → α) : QT α → List (Op α) → Prop
-  | _, [] => True
-  | q, op :: rest =>
-    Spec q.bound (contents q.root) op (step sqrt q op).2 (contents (step sqrt q op).1.root) ∧
-    Trace sqrt (step sqrt q op).1 rest
-
-end vocab
+set_option linter.unusedSectionVars false
 
 variable {α : Type} [Field α] [LinearOrder α] [IsStrictOrderedRing α]
 
 theorem inv_empty' (b : Bound α) : QInv (⟨b, .nil⟩ : QT α) := by
-  sorry
+  simp [QInv, Inv]
+
+theorem contains_inCell (b : Bound α) (p : Pt α) (h : b.contains p = true) : inCell (rootCell b) p := by
+  unfold Bound.contains at h
+  split_ifs at h with h1 h2
+  simp only [not_or, not_lt] at h1 h2
+  exact ⟨h2.1, h2.2, h1.1, h1.2⟩
 
 theorem add_spec' (q : QT α) (p : Ptr α) (h : QInv q) :
     Spec q.bound (contents q.root) (.add p) (.flag (add q p).2) (contents (add q p).1.root) ∧
     QInv (add q p).1 ∧ (add q p).1.bound = q.bound ∧ ((add q p).2 = false → (add q p).1 = q) := by
-  sorry
+  unfold add
+  cases hc : q.bound.contains p.p with
+  | false => simp [Spec, hc, h]
+  | true =>
+    simp only [Bool.not_true, Bool.false_eq_true, if_false, Spec, hc, if_true, true_and]
+    refine ⟨contents_ins _ _ _, ?_, by simp⟩
+    exact Inv_ins _ _ _ h (contains_inCell _ _ hc)
 
 theorem remove_spec' (sqrt : α → α) (hs : SqrtUp sqrt) (q : QT α) (pt : Pt α) (eq : Ptr α → Bool) (h : QInv q) :
     Spec q.bound (contents q.root) (.remove pt eq) (.flag (remove sqrt q pt eq).2) (contents (remove sqrt q pt eq).1.root) ∧
